@@ -439,15 +439,27 @@ def check_C12(F, tier, t0):
         R.count('P:reachable-functions', len(reach))
         sites = engine_p.inventory(F, reach)
         D = Discharger(F, E, conflict_cells, reach)
+        import copy as _copy, facts as _facts
         for s in sites:
             R.count('P:sites')
             reason = None
-            for rule in (D.R0, D.R11, D.R8, D.R4, D.R10, D.R6, D.RS):
-                try:
-                    reason = rule(s)
-                except Exception as ex:
-                    reason = None
+            # a site inside a new helper that was split out of one function of the pinned tree is judged as a site of that function
+            # (the rules read the caller's body with the helper inlined)
+            variants = [s]
+            base = s.fn.split('::{closure')[0]
+            if base not in _facts.baseline_fns():
+                roots = _facts.baseline_roots(s.crate, base)
+                if roots and len(roots) == 1:
+                    s2 = _copy.copy(s); s2.fn = next(iter(roots)); variants.append(s2)
+            for sv in variants:
+                for rule in (D.R0, D.R11, D.R8, D.R4, D.R10, D.R6, D.RS):
+                    try:
+                        reason = rule(sv)
+                    except Exception as ex:
+                        reason = None
+                    if reason: break
                 if reason: break
+            if reason is None and len(variants) == 2: reason = engine_p.site_table_reason(variants[1], F)
             # a site inside a new helper function belongs to the anchored functions the helper was inlined into (X3 / X6 analysed it there)
             owners = attributed(s.fn.split('::{closure')[0])
             if reason is None and s.what.startswith(('Index', 'IndexMut', 'BoundsCheck')) and owners and owners <= {'rsbdd::print_truth_table_recursive', 'rsbdd::print_true_vars_recursive', 'rsbdd::print_sized_line'}:
